@@ -595,6 +595,102 @@ example : (pipeline 40 (fun _ => some [("p", 2), ("n", 1)])
 end Pipeline
 
 
+/-! ## … with instance arrays in the module: `ArrayFlattener` inside the composition -/
+section PipelineArrays
+open Hdl21.RoundTrip Hdl21.ExportWF Hdl21.ModulePipe Hdl21.ArrayPass
+
+/-- **Element `k` of an instance array ends on its bits.** An F1 module that also has instance arrays goes through the default
+    pass list with `ArrayFlattener` in its place (`pipelineA`; the pass itself is the `ArrayPass` model that is compared with the real
+    pass by the `arraypass` stream).  If a module comes back — and the namespace after flattening is a namespace (element names
+    fresh and distinct: C05's `inventAll_spec`) — then for every array `a`, every `k < a.n`, there is an exported instance called
+    what the pass called element `k`, of the array's target, with the array's ports in order, and on port `pn` of width `w`,
+    wired in the source to the expression `c`: either `c` is `w` bits wide and the element reads all of `c` (every element the
+    same: broadcast), or `c` is `n·w` bits wide and bit `b` of the element's port is bit `k·w + b` of `c`. -/
+theorem array_elements_read_their_bits (fuel : Nat) (ctx : PRef → Option (List (String × Nat))) (nm : String → Nat → String)
+    (arrs : List HArr) (h : HModule) (p : PModule)
+    (hm : ∀ h', flattenArrays ctx nm arrs.reverse h = .ok h' → ModOK ctx h')
+    (hp : pipelineA fuel ctx nm arrs h = .ok p) :
+    ∀ a ∈ arrs, ∀ ports, ctx a.ref = some ports → ∀ k, k < a.n →
+      ∃ pi ∈ p.instances, pi.name = nm a.name k ∧ pi.ref = a.ref ∧
+        ∀ (j : Nat) pn c, a.conns[j]? = some (pn, c) → ∃ t w bs, pi.conns[j]? = some (pn, t) ∧ lookup pn ports = some w ∧ c.denote = .ok bs ∧
+          ((bs.length = w ∧ readTarget (sigList h) t = bs.map bitNat) ∨
+           (bs.length = a.n * w ∧ ∀ b, b < w → (readTarget (sigList h) t)[b]? = (bs[k * w + b]?).map bitNat)) := by
+  unfold pipelineA at hp
+  split at hp
+  · cases hp
+  · split at hp
+    · cases hp
+    · split at hp
+      · cases hp
+      · cases hf : flattenArrays ctx nm arrs.reverse h with
+        | error x => simp [hf] at hp
+        | ok h' =>
+          simp only [hf] at hp
+          obtain ⟨_, hsig, hport, _, hall⟩ := flattenArrays_spec ctx nm arrs.reverse h h' hf
+          have hsl : sigList h' = sigList h := by unfold sigList; rw [hsig, hport]
+          obtain ⟨_, _, hkept⟩ := module_connections_preserved fuel ctx h' p (hm h' hf) hp
+          rw [hsl] at hkept
+          intro a ha ports hctx k hk
+          obtain ⟨els, hexp, hin⟩ := hall a (List.mem_reverse.mpr ha)
+          unfold expandArr at hexp
+          simp only [hctx] at hexp
+          cases hx : ArrayPass.expand (ports.map fun pw => (pw.1, Port.sig pw.2)) a.n (a.conns.map fun pc => (pc.1, AConn.sig pc.2)) with
+          | error x => simp [hx] at hexp
+          | ok r =>
+            simp only [hx] at hexp
+            obtain ⟨_, _, hel⟩ := array_expansion _ a.n _ r hx
+            obtain ⟨es, hes, _, hper⟩ := hel k hk
+            obtain ⟨ri, hri, hname, href, _, hcs⟩ := mkElems_spec a nm 0 r els hexp k es hes
+            have hrmem : ri ∈ h'.instances := hin ri (List.mem_of_getElem? hri)
+            obtain ⟨pi, hpim, p1, p2, _, pcs⟩ := forall2_mem_left hkept ri hrmem
+            refine ⟨pi, hpim, by rw [p1, hname]; simp, by rw [p2, href], ?_⟩
+            intro j pn c hj
+            have hj' : (a.conns.map fun pc => (pc.1, AConn.sig pc.2))[j]? = some (pn, AConn.sig c) := by
+              rw [List.getElem?_map, hj]; rfl
+            obtain ⟨e, hej, helem⟩ := hper j pn (AConn.sig c) hj'
+            obtain ⟨rc, hrc, e1, hconn⟩ := all2_getElem (elemSConns_spec es ri.conns hcs) j (pn, e) hej
+            obtain ⟨pt, hpt, e2, bs', hd', hread⟩ := all2_getElem pcs j rc hrc
+            -- what `elem` answered
+            simp only [elem, lookupP_map] at helem
+            cases hl : lookup pn ports with
+            | none => simp [hl] at helem
+            | some w =>
+              simp only [hl, Option.map_some] at helem
+              cases hw : c.width with
+              | error x => simp [hw] at helem
+              | ok cw =>
+                simp only [hw] at helem
+                obtain ⟨bs, hd, hlen⟩ := width_denote c cw hw
+                have hpt' : pi.conns[j]? = some (pn, pt.2) := by
+                  rw [hpt]; congr 1; exact Prod.ext (by rw [e2, e1]) rfl
+                by_cases h1 : w = cw
+                · simp only [h1, if_true] at helem
+                  injection helem with helem; subst helem
+                  simp only [AElem.conn] at hconn
+                  injection hconn with hconn
+                  rw [← hconn, hd] at hd'
+                  injection hd' with hd'; subst hd'
+                  exact ⟨pt.2, w, bs, hpt', rfl, hd, Or.inl ⟨by rw [hlen, h1], hread⟩⟩
+                · simp only [h1, if_false] at helem
+                  by_cases h2 : w * a.n = cw
+                  · simp only [h2, if_true] at helem
+                    injection helem with helem; subst helem
+                    simp only [AElem.conn] at hconn
+                    injection hconn with hconn
+                    have hw0 : 0 < w := by
+                      rcases Nat.eq_zero_or_pos w with h0 | h0
+                      · subst h0; simp at h2; exact absurd h2 h1
+                      · exact h0
+                    obtain ⟨es', hes', _, hbits⟩ := array_element_bits c bs a.n w k hd (by rw [hlen, ← h2, Nat.mul_comm]) hk hw0
+                    rw [← hconn] at hd'
+                    rw [hes'] at hd'
+                    injection hd' with hd'; subst hd'
+                    refine ⟨pt.2, w, bs, hpt', rfl, hd, Or.inr ⟨by rw [hlen, ← h2, Nat.mul_comm], ?_⟩⟩
+                    intro b hb
+                    rw [hread, List.getElem?_map, hbits b hb]
+                  · simp [h2] at helem
+end PipelineArrays
+
 /-! ## … and for every module of an F1 design -/
 section Hierarchy
 open Hdl21.RoundTrip Hdl21.ExportWF Hdl21.ModulePipe Hdl21.Props.C06
